@@ -12,6 +12,7 @@
      b2b <n> / fit <w>         -> ok <n> | ok none
      rule                      -> ok limit|exact   which rule selects the division form (regenerated fact float_rule)
      exact <z>                 -> ok <0|1>         the integer is exactly representable as a double (exact64)
+     flag <c|cpp> <has|svc> <port|none> <0|1>  -> ok <0|1|?>  boolean flag as rendered by the scanned branches
      tableok                   -> ok <0|1>      (table_ok && emit_ok)
      sto <c|cpp> <b|u|s|f|v> <w> <s|t>  -> ok <declared storage type|none> sat=<1|0|none>
      port <c|cpp|py> <n|none>  -> ok <n|none|?>   the fixed port id the target exports (emit condition of the template scan) *)
@@ -141,7 +142,14 @@ let handle (line : string) : string =
       Printf.sprintf "ok %s %s" (so (c_full_name m)) (so (c_full_name_and_version m))
     | "b2b" -> if not (is_dec toks.(1)) then raise (Bad "invalid_arg"); "ok " ^ show_oz (filter_bits2bytes_ceil (z_of_string toks.(1)))
     | "fit" -> if not (is_dec toks.(1)) then raise (Bad "invalid_arg"); "ok " ^ show_oz (get_best_fit (z_of_string toks.(1)))
-    | "tableok" -> if table_ok && emit_ok then "ok 1" else "ok 0"
+    | "tableok" -> if table_ok && emit_ok && names_ok then "ok 1" else "ok 0"
+    | "flag" ->
+      (* flag <c|cpp> <has|svc> <port|none> <is service part 0|1> -> ok <0|1|?>  value of _HAS_FIXED_PORT_ID_ / HasFixedPortID / IsServiceType *)
+      let tg = (match toks.(1) with "c" -> TgtC | "cpp" -> TgtCpp | _ -> raise (Bad "invalid_arg")) in
+      let nm = (match toks.(1), toks.(2) with "c", "has" -> n_c_has_port | "cpp", "has" -> n_cpp_has_port | "cpp", "svc" -> n_cpp_is_service_type
+                                            | _ -> raise (Bad "invalid_arg")) in
+      let p = if toks.(3) = "none" then None else (if not (is_dec toks.(3)) then raise (Bad "invalid_arg"); Some (z_of_string toks.(3))) in
+      (match exported_flag tg nm p (toks.(4) = "1") with Some true -> "ok 1" | Some false -> "ok 0" | None -> "ok ?")
     | "sto" ->
       (* sto <c|cpp> <b|u|s|f|v> <w> <s|t>  -> ok <declared type>|none  ok-sat <1|0|none> *)
       let k = (match toks.(2) with "b" -> KBool | "u" -> KUInt | "s" -> KSInt | "f" -> KFloat | "v" -> KVoid | _ -> raise (Bad "invalid_arg")) in
